@@ -119,7 +119,7 @@ Eval vm_compute in (length cases, length (filter (fun c => negb (ok c)) cases)).
            "pipe": p} for h, p in ((97.5, "SINGLEUTUBE"), (60.0, "COAXIAL"), (120.0, "DOUBLEUTUBEPARALLEL"))][: (2 if quick else 3)]
     # the long-time table computed for another borehole radius than the simulated one (the correction is then not the identity)
     gc += [{"nx": 2, "ny": 2, "months": 12, "H": 100.0, "heights": [60.0, 97.5, 135.0], "H_eval": h, "loads": {"kind": "balanced", "scale": 5000.0, "seed": 1},
-            "pipe": "SINGLEUTUBE", "rb": rs, "rb_table": rt} for h, rs, rt in ((97.5, 0.06, 0.075), (110.0, 0.09, 0.07))][: (1 if quick else 2)]
+            "pipe": "SINGLEUTUBE", "rb": rs, "rb_table": rt} for h, rs, rt in ((97.5, 0.06, 0.075), (97.5, 0.0755, 0.075), (110.0, 0.09, 0.07))][: (2 if quick else 3)]
     # ... and an object whose g-function was already requested once while its borehole had yet another radius
     gc += [{"nx": 2, "ny": 2, "months": 12, "H": 100.0, "heights": [60.0, 97.5, 135.0], "H_eval": 97.5, "loads": {"kind": "balanced", "scale": 5000.0, "seed": 1},
             "pipe": "SINGLEUTUBE", "rb": 0.065, "rb_table": 0.075, "first_rb": 0.09}]
